@@ -2,6 +2,8 @@
 
 package sod
 
+import "time"
+
 // C19 kernels — file names in a collection directory never make the
 // name parser panic.
 func VH_C19_uuidExt() {
@@ -16,4 +18,164 @@ func VH_C19_uuidExt() {
 			vAssert("C19.uuidExt.uuid_nodot", u[i] != '.')
 		}
 	}
+}
+
+type vArgIn struct {
+	X int64 `sod:"index"`
+}
+
+type vArg struct {
+	Item
+	A   int64 `sod:"index"`
+	U   uint64
+	Ptr *int64
+	In  vArgIn
+	PIn *vArgIn
+}
+
+// VH_C19_args: whatever (field, operator, value) a search receives, the
+// call returns an error of the documented class or a valid result; it
+// never panics and never returns objects for a query that could not be
+// evaluated.
+func VH_C19_args() {
+	root := vTempDir()
+	db := Open(root)
+	LowercaseNames = false
+	vAssert("C19.args.create", db.Create(&vArg{}, DefaultSchema) == nil)
+	if vChoice("populated", 2) == 1 {
+		p := int64(5)
+		vAssert("C19.args.insert", db.InsertOrUpdate(&vArg{A: 1, U: 2, Ptr: &p, In: vArgIn{3}, PIn: &vArgIn{4}}) == nil)
+		vAssert("C19.args.insert2", db.InsertOrUpdate(&vArg{A: 2}) == nil)
+	}
+	fields := []string{"A", "U", "Nope", "Ptr", "A.X", "Ptr.X", "In", "In.X", "PIn", "PIn.X", "In.Nope", "", "."}
+	ops := []string{"=", "!=", "<", "<=", ">", ">=", "~=", "??", ""}
+	field := fields[vChoice("field", len(fields))]
+	op := ops[vChoice("operator", len(ops))]
+	var val interface{}
+	switch vChoice("value", 13) {
+	case 0:
+		val = vInt64("v")
+	case 1:
+		val = int(vInt64("v"))
+	case 2:
+		val = vUint8("v")
+	case 3:
+		val = vUint64("v")
+	case 4:
+		val = vFloat64("v")
+	case 5:
+		val = float32(1.5)
+	case 6:
+		val = vString("v", 1)
+	case 7:
+		val = time.Unix(0, vInt64("v"))
+	case 8:
+		val = true
+	case 9:
+		val = nil
+	case 10:
+		val = []int64{1}
+	case 11:
+		val = vArgIn{1}
+	case 12:
+		x := int64(1)
+		val = &x
+	}
+	var s *Search
+	panicked := vCatch(func() { s = db.Search(&vArg{}, field, op, val) })
+	vAssert("C19.args.search_nopanic", !panicked)
+	if panicked || s == nil {
+		return
+	}
+	var objs []Object
+	var cerr error
+	panicked = vCatch(func() {
+		objs, cerr = s.Collect()
+		s.Len()
+		s.And(field, op, val)
+		s.Or(field, op, val)
+		s.One()
+	})
+	vAssert("C19.args.use_nopanic", !panicked)
+	if s.Err() != nil {
+		vAssert("C19.args.error_means_no_objects", len(objs) == 0 && cerr != nil && s.Len() == 0)
+	}
+}
+
+// vhC19UseAll drives the public calls against a (possibly damaged)
+// collection; none may panic.
+func vhC19UseAll(label string, db *DB, uuid string) {
+	panicked := vCatch(func() {
+		db.Schema(&vObj{})
+		db.GetByUUID(&vObj{}, uuid)
+		db.Count(&vObj{})
+		db.All(&vObj{})
+		s := db.Search(&vObj{}, "A", ">=", int64(0))
+		s.Collect()
+		db.Search(&vObj{}, "S", "=", "s").Len()
+		db.Search(&vObj{}, "U", "=", uint64(1)).Collect()
+		var t []int64
+		if sch, err := db.Schema(&vObj{}); err == nil && sch != nil {
+			db.AssignIndex(&vObj{}, "A", &t)
+		}
+		db.InsertOrUpdate(&vObj{A: 9, S: "n"})
+		d := &vObj{}
+		d.Initialize(uuid)
+		db.Delete(d)
+		db.Control()
+		db.Repair(&vObj{})
+		db.Control()
+		db.Create(&vObj{}, DefaultSchema)
+		db.Close()
+	})
+	vAssert(label, !panicked)
+}
+
+// VH_C19_schema_tree: every single-node structural mutation of a valid
+// schema.json (each JSON kind in place of each node, shortened arrays and
+// objects, huge / negative / fractional numbers) yields errors or valid
+// results, never a panic.
+func VH_C19_schema_tree() {
+	db, root := vhOpenDB(vhCfgs[0])
+	o := &vObj{A: 3, S: "s", U: 1}
+	vAssert("C19.tree.pre", db.InsertOrUpdate(o) == nil && db.InsertOrUpdate(&vObj{A: 4, S: "t"}) == nil)
+	vAssert("C19.tree.close", db.Close() == nil)
+	k := vLen("mutation", 0, vBound("MUT", 1200))
+	if !vMutateJSON(root+"/sod.vObj/schema.json", k) {
+		return
+	}
+	vhC19UseAll("C19.tree.schema_nopanic", Open(root), o.UUID())
+}
+
+// VH_C19_object_tree: the same for an object file; plus truncated files,
+// stray files and sub-directories in the collection directory.
+func VH_C19_object_tree() {
+	db, root := vhOpenDB(vhCfgs[0])
+	o := &vObj{A: 3, S: "s", U: 1}
+	vAssert("C19.obj.pre", db.InsertOrUpdate(o) == nil)
+	vAssert("C19.obj.close", db.Close() == nil)
+	dir := root + "/sod.vObj"
+	file := dir + "/" + o.UUID() + ".json"
+	switch vChoice("damage", 6) {
+	case 0:
+		k := vLen("mutation", 0, vBound("MUTO", 60))
+		if !vMutateJSON(file, k) {
+			return
+		}
+	case 1:
+		vTruncateFile(file, 0)
+	case 2:
+		vTruncateFile(file, 1)
+	case 3:
+		vTruncateFile(dir+"/schema.json", vChoice("how", 2))
+	case 4: // stray entries
+		vCopyFile(file, dir+"/README")
+		vCopyFile(file, dir+"/notes.txt")
+		vCopyFile(file, dir+"/"+o.UUID()+".bak")
+		vCopyFile(file, dir+"/.hidden")
+	case 5: // sub-directories, one of them named like an object
+		vMkdir(dir + "/subdir")
+		vMkdir(dir + "/cccccccc-cccc-4ccc-8ccc-cccccccccccc.json")
+	}
+	vhC19UseAll("C19.obj.nopanic", Open(root), o.UUID())
 }
